@@ -147,6 +147,10 @@ def run(repo, res, tier):
     res.rule("A2-INVERSE", "add and remove helpers iterate the same assignment attributes", 2)
     res.rule("A2-TOTAL", "obstacle removal from lanelet registries uses only non-raising operations", 6)
     res.rule("A3-SIBLINGS", "XML and protobuf readers assign with the same signature", 3)
+    res.rule("A1-LOOKUP-IMPL", "the lookups the assignment relies on filter candidates by geometry and map them to lanelet ids", 7)
+    from .c06 import lookup_rules
+
+    lookup_rules(repo, res, "A1-LOOKUP-IMPL")
 
     sites = assignment_sites(repo)
     if len(sites) < 7:
@@ -318,6 +322,19 @@ def run(repo, res, tier):
 
         ia, ir = iter_sources(fa), iter_sources(fr)
         res.check("A2-INVERSE", "%s / %s iterate %s" % (an, rn, ia), ia == ir, smod, fr, "%s iterates %s, %s iterates %s" % (an, ia, rn, ir), "removal walks other lanelet sets than registration filled: entries are left behind", qualname="Scenario." + rn)
+        # the helpers skip their work under the same conditions: removal must not skip what registration did
+        def skip_tests(fn):
+            out = []
+            for st in fn.body:
+                if isinstance(st, ast.If) and st.body and all(isinstance(x, ast.Return) for x in st.body) and not st.orelse:
+                    t = st.test
+                    parts = t.values if isinstance(t, ast.BoolOp) and isinstance(t.op, ast.Or) else [t]
+                    out += [norm(x) for x in parts]
+            return sorted(out)
+
+        sa_, sr_ = skip_tests(fa), skip_tests(fr)
+        extra = [t for t in sr_ if t not in sa_ and not t.endswith("is None")]
+        res.check("A2-INVERSE", "%s skips no case that %s handles (%s)" % (rn, an, sr_), not extra, smod, fr, "%s returns early if %s; %s only if %s" % (rn, sr_, an, sa_), "obstacles that were registered on lanelets are skipped on removal: their registry entries stay behind", qualname="Scenario." + rn)
         # totality of the removing side
         for n in walk_no_nested(fr):
             if isinstance(n, ast.Call) and isinstance(n.func, ast.Attribute):
